@@ -370,12 +370,20 @@ def check_r2(prop, tier, seed, spec):
         odir = os.path.join(wdir, "apalache")
         out, dt = run(["apalache-mc", "check", "--init=Init", "--inv=" + lm["inv"], "--length=0", "--out-dir=" + odir, os.path.join(TLA, lm["spec"])],
                       cwd=os.path.dirname(os.path.join(TLA, lm["spec"])), timeout=lm.get("timeout", 900), check=False)
+        shutil.rmtree(odir, ignore_errors=True)
+        if lm.get("expect_error"):
+            # vacuity guard: a deliberately false variant of a lemma must be refuted
+            ok = "The outcome is: Error" in out
+            lemmas.append(dict(spec="tla/" + lm["spec"], invariant=lm["inv"], refuted_as_expected=ok, tool="Apalache 0.58", wall=round(dt, 1)))
+            if not ok:
+                raise ToolError("Apalache did not refute the guard %s of %s:\n%s" % (lm["inv"], lm["spec"], out[-2000:]))
+            log("[%s] Apalache: guard %s of tla/%s refuted, as it must be (%.0fs)" % (prop, lm["inv"], lm["spec"], dt))
+            continue
         ok = "The outcome is: NoError" in out
         lemmas.append(dict(spec="tla/" + lm["spec"], invariant=lm["inv"], discharged=ok, tool="Apalache 0.58 (SMT, unbounded integers, word size 2^64)", wall=round(dt, 1)))
-        shutil.rmtree(odir, ignore_errors=True)
         if not ok:
             raise ToolError("Apalache did not discharge %s of %s:\n%s" % (lm["inv"], lm["spec"], out[-2000:]))
-        log("[%s] Apalache: %s of tla/%s holds for all words at W=64 (%.0fs)" % (prop, lm["inv"], lm["spec"], dt))
+        log("[%s] Apalache: %s of tla/%s holds for all values at the real width (%.0fs)" % (prop, lm["inv"], lm["spec"], dt))
     # report
     for fid, cnt in sorted(known.items()):
         f = [x for x in findings if x["id"] == fid][0]
